@@ -118,7 +118,7 @@ func Tool(dir, sub string) (*Report, error) {
 				head += " " + val + " := " + id.Name + "[" + key + "];"
 			}
 			cut = append(cut, [2]int{off(rs.For), off(rs.Body.Lbrace) + 1})
-			edits = append(edits, edit{off(rs.For), head})
+			edits = append(edits, edit{off: off(rs.For), text: head})
 			rep.MapRanges++
 			return true
 		})
